@@ -24,18 +24,25 @@ let st = function Model.READ_STATUS_OK -> "OK" | Model.READ_STATUS_INVALID -> "I
 (* the block FillBlock assembles: announced header (root hdr), given transactions.  The coinbase
    description (cb, commit, stack) given in the case is that of the block's first transaction; when the
    first transaction of the reconstruction is another one, it is a plain non-coinbase transaction. *)
+let nowit_of tok = fst (tx_forms tok)
+let stripped tok = match String.index_opt tok '/' with Some i -> String.sub tok 0 i | None -> tok
 let view hdr cb commit stack first (txs : string list) : string Model.block_view =
-  let genuine_first = (match txs with t :: _ -> t = first | [] -> false) in
+  (* same transaction without witness data: still the coinbase with the same outputs (commitment), but its witness stack is empty *)
+  let genuine_first = (match txs with t :: _ -> nowit_of t = nowit_of first | [] -> false) in
+  let first_has_witness = (match txs with t :: _ -> t = first | [] -> false) in
   { Model.bv_header_root = dig hdr; bv_txs = List.map tx_view txs;
     bv_first_is_coinbase = genuine_first && cb = "1";
     bv_commitment = (if genuine_first && commit <> "-" then Some (dig commit) else None);
-    bv_cb_witness_stack = (if genuine_first then List.map (fun it -> (z_of_int (String.length it), if String.length it = 32 then it else zero)) (stack_items stack) else []);
+    bv_cb_witness_stack = (if genuine_first && first_has_witness then List.map (fun it -> (z_of_int (String.length it), if String.length it = 32 then it else zero)) (stack_items stack) else []);
     bv_checked_merkle_root = false; bv_checked_witness_commitment = false }
 
-let fill segwit hdr cb commit stack (txs : string list) (avail : bool list) spec other =
+let fill segwit hdr cb commit stack (txs : string list) (avail : bool list) spec other pre strip =
   let first = List.hd txs in
-  let av = List.map2 (fun t a -> if a then Some t else None) txs avail in
-  let missing0 = List.filter_map (fun (t, a) -> if a then None else Some t) (List.combine txs avail) in
+  (* what the peer delivers: stripped versions at the positions in `strip` (prefilled or in the response);
+     transactions found in the mempool / extra pool are the genuine ones *)
+  let deliv = List.mapi (fun i t -> if List.mem i strip then stripped t else t) txs in
+  let av = List.mapi (fun i a -> if a then Some (if List.mem i pre then List.nth deliv i else List.nth txs i) else None) avail in
+  let missing0 = List.filter_map (fun (t, a) -> if a then None else Some t) (List.combine deliv avail) in
   let missing = match spec with
     | "exact" -> missing0
     | "short" -> (match List.rev missing0 with [] -> [] | _ :: r -> List.rev r)
@@ -61,11 +68,11 @@ let has_dup_short txs pre =
 let bits l = String.concat "" (List.map (fun b -> if b then "1" else "0") l)
 
 let model _ l = match words l with
-  | "cmpct" :: segwit :: _ :: hdr :: cb :: commit :: stack :: pre :: mem :: extra :: _ :: spec :: other :: txs ->
-    let pre = idxlist pre and mem = idxlist mem and extra = idxlist extra in
+  | "cmpct" :: segwit :: _ :: hdr :: cb :: commit :: stack :: pre :: mem :: extra :: _ :: spec :: strip :: other :: txs ->
+    let pre = idxlist pre and mem = idxlist mem and extra = idxlist extra and strip = idxlist strip in
     if has_dup_short txs pre then "FAILED - - -" else begin
       let avail = predict_avail txs pre mem extra in
-      let (s2, same) = fill segwit hdr cb commit stack txs avail spec other in
+      let (s2, same) = fill segwit hdr cb commit stack txs avail spec other pre strip in
       String.concat " " ["OK"; bits avail; s2; same]
     end
   | ["cmpctraw"; hnull; nshort; pre] ->
@@ -88,13 +95,14 @@ let model _ l = match words l with
 (* the property on what the implementation did: with the availability the implementation reported,
    FillBlock's status is the model's; an OK reconstruction is the announced block *)
 let holds args c impl = match words c, words impl with
-  | "cmpct" :: segwit :: _ :: hdr :: cb :: commit :: stack :: _ :: _ :: _ :: _ :: spec :: other :: txs, [s1; avail; s2; same] ->
+  | "cmpct" :: segwit :: _ :: hdr :: cb :: commit :: stack :: pre :: _ :: _ :: _ :: spec :: strip :: other :: txs, [s1; avail; s2; same] ->
     if s1 <> "OK" then (if model args c = impl then "ok" else "fail InitData status differs from the model: " ^ model args c)
     else if String.length avail <> List.length txs then "fail malformed availability"
     else begin
       let av = List.init (String.length avail) (fun i -> avail.[i] = '1') in
-      let (ms2, msame) = fill segwit hdr cb commit stack txs av spec other in
-      if s2 = "OK" && same <> "1" then "fail FillBlock returned OK for a block that is not the announced one"
+      let (ms2, msame) = fill segwit hdr cb commit stack txs av spec other (idxlist pre) (idxlist strip) in
+      (* with segwit inactive witness data is not committed to: only the txids are bound (compared through the model's result) *)
+      if segwit = "1" && s2 = "OK" && same <> "1" then "fail FillBlock returned OK for a block whose wtxids (witness data) are not those of the announced block"
       else if s2 <> ms2 then "fail FillBlock status " ^ s2 ^ " differs from the model's " ^ ms2
       else if same <> msame then "fail reconstructed block differs"
       else "ok"
